@@ -78,10 +78,12 @@ class C14Runout(Monitor):
 
     def _shares(self, s, k):
         """even division of pot `k` (its amount just before the first push) over the boards"""
-        if s.divmod is not impl.putil.divmod or k >= len(self.pots_before):
+        if k >= len(self.pots_before):
             return None
         nb = s.board_count
-        q, rem = divmod(self.pots_before[k], nb)
+        # by the division the state was configured with (the default, or one that deals in chunks): every
+        # board the quotient, the first board the remainder as well
+        q, rem = s.divmod(self.pots_before[k], nb)
         return {j: q + (rem if j == 0 else 0) for j in range(nb)}
 
     # -- helpers ------------------------------------------------------------------------------
